@@ -23,7 +23,7 @@ LEVEL_TEXT = ("Base scenarios with depth-dependent sheared, time-dependent curre
 LEVEL_NOTE = "Equality is on f8 output, so 'bit for bit' is exact. Trusts the row tag column (an int instance variable) to follow the particle (C05)."
 RULE = ("case = base scenario + variant list. Non-trivial: at least one particle placed behind a removed/killed one in the state arrays survives for >= 3 further records "
         "(the cross-talk pattern); distinct by base parameters.")
-MANDATORY = ["repeat_with_stateful_plugin_pairs", "interleaved_release_times_pairs", "shallow_only_pairs", "killed_newest_pairs", "pid_to_row_mapping_checked", "vertical_advection", "deactivated_rows_alone_pairs", "lonlat_release_pairs", "reversed_time", "subgrid_off_diagonal", "float_day_time_axis", "repeat_pairs", "subset_pairs", "added_rows_pairs", "permuted_pairs", "killed_others_pairs", "time_shift_pairs", "deactivated_others_pairs", "empty_state_before_late_release_pairs", "death_then_output",
+MANDATORY = ["restart_in_dense_layout_pairs", "discrete_release_with_frequency_entry", "repeat_with_stateful_plugin_pairs", "interleaved_release_times_pairs", "shallow_only_pairs", "killed_newest_pairs", "pid_to_row_mapping_checked", "vertical_advection", "deactivated_rows_alone_pairs", "lonlat_release_pairs", "reversed_time", "subgrid_off_diagonal", "float_day_time_axis", "repeat_pairs", "subset_pairs", "added_rows_pairs", "permuted_pairs", "killed_others_pairs", "time_shift_pairs", "deactivated_others_pairs", "empty_state_before_late_release_pairs", "death_then_output",
              "trajectory_points_compared", "dense", "sparse", "survivor_behind_removed"]
 ASSUMPTIONS = ["diffusion off (as the property states)"]
 TIMEOUT = {"quick": 900, "thorough": 3400}
@@ -129,7 +129,7 @@ def base_spec(case: dict[str, Any]):
     # half of the bases store ocean_time as float days (frame times not exactly representable in that unit)
     tu = "days since 2019-12-01 00:00:00" if (case["idx"] // 2) % 2 else None
     return dict(world=world, rows=rows, dt=dt, nsteps=nsteps, scheme=["EF", "RK2", "RK4"][case["idx"] % 3], layout=layout, time_units=tu,
-                reversed=bool(case["idx"] % 5 == 4), vadv=vadv, subgrid=[2, imax - 1, 1, jmax - 2] if case["idx"] % 3 == 1 else None)
+                reversed=bool(case["idx"] % 5 == 4), vadv=vadv, idlefreq=(1 + case["idx"] % 2) if case["idx"] % 3 == 2 else 0, subgrid=[2, imax - 1, 1, jmax - 2] if case["idx"] % 3 == 1 else None)
 
 
 def make_scn(b: dict[str, Any], rows: list[dict[str, Any]], kill_tag: dict[str, list[int]], shift_steps: int = 0,
@@ -148,7 +148,8 @@ def make_scn(b: dict[str, Any], rows: list[dict[str, Any]], kill_tag: dict[str, 
         w["time_units"] = b["time_units"]
     rel = [[str(tadd(start, sg * r["step"] * dt)), r["X"], r["Y"], r["Z"], r["rid"]] for r in rows]
     run = dict(start=start, stop=str(tadd(start, sg * b["nsteps"] * dt)), dt=dt, reversed=rev, subgrid=b.get("subgrid"), advection=b["scheme"], extra_forcing=["temp"],
-               release=dict(columns=["release_time", "X", "Y", "Z", "rid"], rows=rel, header=True),
+               release=dict(columns=["release_time", "X", "Y", "Z", "rid"], rows=rel, header=True,
+                            idle_frequency=(2 * dt if b.get("idlefreq") else 0), continuous_key_false=bool(b.get("idlefreq") == 2)),  # discrete release that still carries a release_frequency entry
                state=dict(instance_variables=dict(rid="int", age="float", temp="float"), particle_variables=dict(release_time="time"), default_values=dict(age=0.0, temp=0.0)),
                ibm=dict(module=C.REC_IBM, age=True, kill_tag=kill_tag, deactivate_tag=deactivate_tag or {}, log=False),
                output=dict(period=dt, layout=b["layout"], instance=dict(pid="i4", X="f8", Y="f8", Z="f8", rid="i4", age="f8", temp="f8"), particle=dict(release_time="f8")))
@@ -188,6 +189,7 @@ def run_case(case: dict[str, Any], wd: Path) -> dict[str, Any]:
     sit["reversed_time"] = int(bool(b.get("reversed")))
     sit["subgrid_off_diagonal"] = int(bool(b.get("subgrid")))
     sit["vertical_advection"] = int(bool(b.get("vadv")))
+    sit["discrete_release_with_frequency_entry"] = int(bool(b.get("idlefreq")))
 
     def run(tag, rows, kill_tag, shift=0, deact=None, ibm_module=None):
         scn = make_scn(b, rows, kill_tag, shift, deact)
@@ -235,8 +237,10 @@ def run_case(case: dict[str, Any], wd: Path) -> dict[str, Any]:
         variants = ["kill", "add", "permute", "shift", "deactivate", "late_only", "kill_newest"] if case["idx"] % 2 else ["repeat", "kill", "subset", "deactivate", "kill_all_early", "shallow_only", "interleave"]
         if case["idx"] % 4 == 1:
             variants.append("repeat_stateful")
+        if case["idx"] % 4 == 2:
+            variants.append("restart_dense")
     else:
-        variants += ["late_only", "kill_all_early", "shallow_only", "kill_newest", "interleave", "repeat_stateful"]
+        variants += ["late_only", "kill_all_early", "shallow_only", "kill_newest", "interleave", "repeat_stateful", "restart_dense"]
     nontrivial = False
     for var in variants:
         if len(V) > 2:
@@ -336,6 +340,41 @@ def run_case(case: dict[str, Any], wd: Path) -> dict[str, Any]:
             o = run("permute", rows2, {})
             if o:
                 compare("release rows permuted", o, rids, "permuted_pairs")
+        elif var == "restart_dense":
+            # first leg sparse and split, a particle with a low pid killed before the restart record; the continuation is warm-started from the
+            # first file and written in the dense layout: every row's trajectory goes on as in the uninterrupted run
+            if b.get("reversed") or len(b["rows"]) < 3:
+                continue
+            victim = b["rows"][0]["rid"]
+            scn = make_scn(b, b["rows"], {"0": [victim]})
+            scn["run"]["output"].update(layout="sparse", numrec=3)
+            res1, _c1, w1 = run_scenario(scn, wd / "leg1")
+            if not res1.ok or len(res1.outputs) < 2:
+                continue
+            full = trajectories(all_records(read_outputs(res1.outputs)), scn["run"]["start"], b["dt"])[0]
+            run2 = dict(scn["run"], warm_start=dict(filename=str(res1.outputs[0]), variables=["release_time"] + list(scn["run"]["state"]["instance_variables"])))
+            run2["output"] = dict(scn["run"]["output"], layout="dense", numrec=0, filename="leg2.nc")
+            res2, _c2, _w2 = run_scenario(dict(world=None, run=run2), wd / "leg2", world=w1)
+            if not res2.ok:
+                V.append(C.viol(f"warm-started continuation (dense layout) did not complete: {res2.exc}", tb=res2.tb[-1000:], **desc))
+                continue
+            recs2 = all_records(read_outputs(res2.outputs))
+            for r in recs2:
+                outcheck.check_record_pids(r, V, "continuation in the dense layout: ")
+            cont = trajectories(recs2, scn["run"]["start"], b["dt"])[0]
+            sit["restart_in_dense_layout_pairs"] = sit.get("restart_in_dense_layout_pairs", 0) + 1
+            for rid_, pts in cont.items():
+                ref_pts = {p_[0]: p_ for p_ in full.get(rid_, [])}
+                for p_ in pts:
+                    q_ = ref_pts.get(p_[0])
+                    if q_ is None or max(abs(p_[1] - q_[1]), abs(p_[2] - q_[2])) > 2e-5:
+                        if p_[0] >= b["nsteps"]:
+                            continue  # the extra record a warm-started run writes at the stop time
+                        V.append(C.viol(f"continuation warm-started from {res1.outputs[0].name} and written dense: row {rid_} at step {p_[0]} is at ({p_[1]},{p_[2]}), "
+                                        f"the uninterrupted run has {q_[1:3] if q_ else 'no such record'}", **desc))
+                        break
+                if len(V) > 2:
+                    break
         elif var == "repeat_stateful":
             # an IBM given by file path that keeps a module-level call counter and switches one particle off at its third call:
             # repeating the run in the same process reproduces the output (the plug-in file is loaded afresh for every run)
